@@ -204,6 +204,70 @@ pub fn run_all(rounds: u64) -> Vec<String> {
     check("settle", o.kind == Kind::Done && seen.load(std::sync::atomic::Ordering::SeqCst) == 4, o.describe());
   }
 
+  // 14. timed waits on the virtual clock; spurious wake-ups
+  for r in 0..rounds.min(40) {
+    let walk = if r == 0 { None } else { Some((r, 30)) };
+    let res = std::sync::Arc::new(std::sync::Mutex::new((false, 0u64, false, 0u64)));
+    let r2 = res.clone();
+    let o = run(cfg(walk), move || {
+      let pair = Arc::new((Mutex::new(false), Condvar::new()));
+      // nobody notifies: times out exactly at 5 ms
+      let g = pair.0.lock().unwrap();
+      let (g, t) = pair.1.wait_timeout(g, Duration::from_millis(5)).unwrap();
+      drop(g);
+      let a = (t.timed_out(), crate::now());
+      // notified at 2 ms, deadline at 50 ms
+      let p2 = pair.clone();
+      let h = thread::spawn(move || {
+        thread::sleep(Duration::from_millis(2));
+        *p2.0.lock().unwrap() = true;
+        p2.1.notify_one();
+      });
+      let g = pair.0.lock().unwrap();
+      let (g, t) = pair.1.wait_timeout_while(g, Duration::from_millis(50), |x| !*x).unwrap();
+      drop(g);
+      h.join().unwrap();
+      *r2.lock().unwrap() = (a.0, a.1, t.timed_out(), crate::now());
+    });
+    let v = *res.lock().unwrap();
+    check("wait_timeout", o.kind == Kind::Done && v.0 && v.1 == 5_000_000 && !v.2 && v.3 == 7_000_000, format!("{:?} {}", v, o.describe()));
+  }
+  let mut spurious_seen = 0;
+  for r in 1..60u64 {
+    let got = std::sync::Arc::new(std::sync::atomic::AtomicBool::new(false));
+    let g2 = got.clone();
+    let o = run(
+      Config { schedule: Schedule { walk: Some((r, 30)), spurious: true, ..Schedule::default() }, max_steps: 50_000, fuel: 100_000 },
+      move || {
+        let pair = Arc::new((Mutex::new(0u32), Condvar::new()));
+        let p2 = pair.clone();
+        let h = thread::spawn(move || {
+          for _ in 0..20 {
+            crate::yield_point();
+          }
+          *p2.0.lock().unwrap() = 1;
+          p2.1.notify_one();
+        });
+        let g = pair.0.lock().unwrap();
+        // a single wait without re-testing: may return early under spurious wake-ups
+        let g = if *g == 0 { pair.1.wait(g).unwrap() } else { g };
+        if *g == 0 {
+          g2.store(true, std::sync::atomic::Ordering::SeqCst);
+        }
+        drop(g);
+        h.join().unwrap();
+      },
+    );
+    if o.kind != Kind::Done {
+      fails.push(format!("spurious: {}", o.describe()));
+    }
+    if got.load(std::sync::atomic::Ordering::SeqCst) {
+      spurious_seen += 1;
+    }
+  }
+  if rounds >= 50 && spurious_seen == 0 {
+    fails.push("spurious wake-ups were never injected".into());
+  }
   if rounds >= 50 {
     if inv.0 == 0 || inv.1 == 0 {
       fails.push(format!("inversion: schedules not diverse: done={} deadlock={}", inv.0, inv.1));
